@@ -257,6 +257,7 @@ func runC12(w *World, r *Report) {
 	c12PositionSource(w, r)
 	c12PositionRecorded(w, r)
 	c12Gate(w, r)
+	c12DiagnosticSink(w, r)
 	c12Namespaces(w, r)
 	c12Live(w, r)
 	c12Resolution(w, r)
@@ -688,7 +689,44 @@ func c12Namespaces(w *World, r *Report) {
 						}
 					}
 				}
-				if okRoot {
+				// ... and only a packet declared `root` takes the slot
+				isRootEdge := false
+				for _, bb := range fn.Blocks {
+					cond := branchCond(bb)
+					if cond == nil {
+						continue
+					}
+					val := true
+					c := cond
+					for {
+						if u, ok := c.(*ssa.UnOp); ok && u.Op == token.NOT {
+							c, val = u.X, !val
+							continue
+						}
+						break
+					}
+					ld, ok := stripIdentity(c).(*ssa.UnOp)
+					if !ok || ld.Op != token.MUL {
+						continue
+					}
+					f3, ok := ld.X.(*ssa.FieldAddr)
+					if !ok {
+						continue
+					}
+					if tn3, n3, _, _ := fieldOf(f3); tn3 != "Packet" || n3 != "IsRoot" || !sameValue(f3.X, x.Val) {
+						continue
+					}
+					succ := 0
+					if !val {
+						succ = 1
+					}
+					if edgeDominates(bb, succ, b) {
+						isRootEdge = true
+					}
+				}
+				if okRoot && !isRootEdge {
+					r.fail(rule, key, w.instrPos(ins), "the root slot is assigned on a path where the packet's IsRoot is not known to be true: a packet that is not declared root becomes the root (and two ordinary packets are reported as `multiple root packets`)")
+				} else if okRoot {
 					r.pass(rule, key, w.instrPos(ins), "assigned only when empty; a second root reports a diagnostic")
 				} else {
 					r.fail(rule, key, w.instrPos(ins), "RootPacket is assigned without a dominating `RootPacket == nil` test whose other edge reports `multiple root packets`")
@@ -1242,8 +1280,11 @@ func c12Resolution(w *World, r *Report) {
 		found := false
 		checked := false
 		pos := ""
+		unchecked := ""
 		for _, fn := range funcs {
 			tests := membershipTests(fn)
+			// every routine that tests the name for presence reports the miss (two routines collect fields: each validates its own)
+			testedHere, checkedHere, posHere := false, false, ""
 			forEachInstr(fn, func(b *ssa.BasicBlock, ins ssa.Instruction) {
 				lk, ok := ins.(*ssa.Lookup)
 				if !ok {
@@ -1267,22 +1308,30 @@ func c12Resolution(w *World, r *Report) {
 					if t.lookup != lk {
 						continue
 					}
-					missSucc := t.branch.Succs[1-t.presentSucc]
-					_ = missSucc
+					testedHere = true
+					if posHere == "" {
+						posHere = w.instrPos(ins)
+					}
 					for _, bb := range fn.Blocks {
 						if edgeDominates(t.branch, 1-t.presentSucc, bb) {
 							for _, i2 := range bb.Instrs {
 								if isAddSyntaxError(i2) {
 									checked = true
+									checkedHere = true
 								}
 							}
 						}
 					}
 				}
 			})
+			if testedHere && !checkedHere && unchecked == "" {
+				unchecked = fnKey(fn) + " (" + posHere + ")"
+			}
 		}
 		key := "unknown " + wn.name + " is diagnosed"
 		switch {
+		case found && checked && unchecked != "":
+			r.fail(rule, key, pos, "the "+wn.name+" is tested for presence in "+unchecked+" but the miss edge there reaches no AddSyntaxError: an undeclared name written in that construct is accepted (and crashes later)")
 		case !found:
 			r.fail(rule, key, "internal/parser/packet_dsl_parser.go", "no lookup resolving the "+wn.name+" found in parse-phase code (never resolved, hence never validated)")
 		case !checked:
@@ -2115,4 +2164,120 @@ func singleAssignCell(v ssa.Value) *ssa.Alloc {
 		return nil
 	}
 	return al
+}
+
+// C12/diagnostic-sink: a diagnostic that is raised is kept. Every rule of this property ends in "AddSyntaxError is reached"; that
+// only rejects the DSL if AddSyntaxError, on every call, appends what it is handed to the list the gate in cmd.Compile reads
+// (BinaryModel.SyntaxErrors). Also here: the option table's miss edge (an option name that is not documented) reaches a diagnostic.
+func c12DiagnosticSink(w *World, r *Report) {
+	const rule = "C12/diagnostic-sink"
+	var sink *ssa.Function
+	for _, fn := range w.srcFuncs {
+		if fn.Pkg == w.Model && fn.Name() == "AddSyntaxError" && recvNamedCore(fn) == "BinaryModel" {
+			sink = fn
+		}
+	}
+	if sink == nil || len(sink.Params) < 2 {
+		r.fail(rule, "AddSyntaxError keeps the diagnostic", "internal/model/model.go", "(*BinaryModel).AddSyntaxError not found: anchor lost")
+	} else {
+		key := "AddSyntaxError keeps the diagnostic"
+		kept := false
+		forEachInstr(sink, func(b *ssa.BasicBlock, ins ssa.Instruction) {
+			st, ok := ins.(*ssa.Store)
+			if !ok {
+				return
+			}
+			fa, ok := st.Addr.(*ssa.FieldAddr)
+			if !ok {
+				return
+			}
+			if tn, f, _, _ := fieldOf(fa); tn != "BinaryModel" || f != "SyntaxErrors" || stripIdentity(fa.X) != ssa.Value(sink.Params[0]) {
+				return
+			}
+			ap, ok := stripIdentity(st.Val).(*ssa.Call)
+			if !ok {
+				return
+			}
+			if bi, ok := ap.Call.Value.(*ssa.Builtin); !ok || bi.Name() != "append" || len(ap.Call.Args) != 2 {
+				return
+			}
+			// the list that is extended is the list itself
+			ld, ok := stripIdentity(ap.Call.Args[0]).(*ssa.UnOp)
+			if !ok || ld.Op != token.MUL {
+				return
+			}
+			if fa0, ok := ld.X.(*ssa.FieldAddr); !ok || fa0.Field != fa.Field || stripIdentity(fa0.X) != ssa.Value(sink.Params[0]) {
+				return
+			}
+			has := false
+			for _, o := range variadicOperands(ap.Call.Args[1]) {
+				if o != nil && stripIdentity(o) == ssa.Value(sink.Params[1]) {
+					has = true
+				}
+			}
+			if !has {
+				return
+			}
+			// on every call: the store dominates every return that is not behind `error == nil`
+			all := true
+			for _, rb := range sink.Blocks {
+				if _, isRet := rb.Instrs[len(rb.Instrs)-1].(*ssa.Return); !isRet {
+					continue
+				}
+				if b.Dominates(rb) || guardedByNil(rb, sink.Params[1], false) {
+					continue
+				}
+				all = false
+			}
+			if all {
+				kept = true
+			}
+		})
+		if kept {
+			r.pass(rule, key, w.pos(sink.Pos()), "appends its argument to BinaryModel.SyntaxErrors on every call")
+		} else {
+			r.fail(rule, key, w.pos(sink.Pos()), "AddSyntaxError does not, on every call, append the diagnostic it is handed to BinaryModel.SyntaxErrors: diagnostics are raised and lost, the gate in cmd.Compile sees an empty list and code is generated for a rejected DSL")
+		}
+	}
+	// the option table: a name that is not a key is reported
+	n := 0
+	for _, fn := range parsePhaseFuncs(w) {
+		if fn.Pkg != w.Model {
+			continue
+		}
+		tests := membershipTests(fn)
+		forEachInstr(fn, func(b *ssa.BasicBlock, ins ssa.Instruction) {
+			lk, ok := ins.(*ssa.Lookup)
+			if !ok || !lk.CommaOk || lk.X.Type().Underlying().String() != "map[string][]string" {
+				return
+			}
+			if _, isGlobal := valueRoot(lk.X).(*ssa.Global); !isGlobal {
+				return
+			}
+			if _, isParam := stripIdentity(lk.Index).(*ssa.Parameter); !isParam {
+				return
+			}
+			for _, t := range tests {
+				if t.lookup != lk {
+					continue
+				}
+				n++
+				key := fmt.Sprintf("%s: an option name that is not in the table is reported", fnKey(fn))
+				reported := false
+				for _, db := range w.diagnosticBlocks(fn) {
+					if edgeDominates(t.branch, 1-t.presentSucc, db) {
+						reported = true
+					}
+				}
+				if reported {
+					r.pass(rule, key, w.instrPos(ins), "")
+				} else {
+					r.fail(rule, key, w.instrPos(ins), "the miss edge of the option table lookup reaches no diagnostic: an unknown option is accepted (or dropped) without a word")
+				}
+			}
+		})
+	}
+	if n == 0 {
+		r.fail(rule, "option table membership test found", "internal/model/model.go", "no checked lookup of an option name in the option table found in the model's parse-phase code")
+	}
 }
